@@ -335,6 +335,29 @@ func byzCatalogue(e common.Env) []byzScenario {
 					}
 				}
 			})
+			// several rounds: the sender broadcasts round 1, then round 2, consistently, and afterwards ANOTHER payload for round 1
+			// (to everybody, or to one party only): whatever an implementation forgets about completed rounds, the second
+			// payload for round 1 must never be handed over
+			for _, target := range []string{"everybody", "one party"} {
+				target := target
+				add("later-round-then-other-payload-for-earlier-round to "+target, n, byz, limit, sample, func(w *rworld) {
+					x, z, y := payloadMsg(S, 1, 1, true, 0xffff), payloadMsg(S, 2, 1, true, 0xffff), payloadMsg(S, 1, 2, true, 0xffff)
+					for i, g := range honest {
+						w.push(S, g, x)
+						w.push(S, g, z)
+						if target == "everybody" || i == 0 {
+							w.push(S, g, y)
+						}
+					}
+					for _, a := range accomplices {
+						for _, g := range honest {
+							w.push(a, g, ackMsg(S, 1, x.digest, fmt.Sprintf("accomplice%d", a)))
+							w.push(a, g, ackMsg(S, 2, z.digest, fmt.Sprintf("accomplice%d", a)))
+							w.push(a, g, ackMsg(S, 1, y.digest, fmt.Sprintf("accomplice%d", a)))
+						}
+					}
+				})
+			}
 			add("resend-after-delivery", n, byz, limit, sample, func(w *rworld) {
 				m := payloadMsg(S, 1, 1, true, 0xffff)
 				for _, g := range all {
